@@ -45,6 +45,7 @@ type Contract struct {
 	Inline   bool
 	Trusted  bool // assumed, not verified (listed as assumption)
 	NoPanic  bool // generate implicit safety obligations
+	Sweep    bool // synthesized empty contract of a function checked for safety only
 	RealFloat bool // float64 treated as exact reals in this function's obligations
 	Logical  [][2]string // logical (universally quantified) variables: name, type text
 	TrustedFrame bool // the modifies clause is used by callers but not checked on the body (listed as assumption)
